@@ -345,3 +345,13 @@ def r4(ctx: Ctx) -> None:
     if not ok or not guard_ok:
         ctx.report(r.where, f"recenter-translation ok={ok} guard={guard_ok}", "recenter_rectangles is not a rigid translation of all rectangles of a hard, movable module",
                    lineno=r.node.lineno)
+
+
+@rule("C14", "R5.result-written-complete", "SHARED(C04)",
+      "the netlist the tool writes carries the modules unchanged apart from their centres: the writer emits every attribute with the "
+      "value the module has (per-region areas in full, kinds, rectangles, nets) -- the C04 writer rules evaluated for the writer the "
+      "tool calls", floor=3)
+def shared_writer(ctx: Ctx) -> None:
+    from . import C04 as _c04
+    from .common import support
+    support(ctx, [_c04.r2, _c04.r3, _c04.r6], {"dump_yaml_module", "dump_yaml_modules", "dump_yaml_rectangles", "dump_yaml_edges", "Netlist.write_yaml"})
